@@ -122,7 +122,19 @@ def uint64_min_numba_chunked(case, clause, detail):
             and case.get("path") not in (None, "eager") and clause == "exception:OverflowError")
 
 
+def nancumsum_infinite_data(case, clause, detail):
+    """nancumsum of data holding +-inf.  Two mechanisms, both only reachable with an infinity in the data: (1) the in-block
+    kernel (numpy_groupies cumsum: ONE cumulative sum over the label-sorted data minus the running total at each group's
+    start) computes inf - inf = NaN for every later position of the block, also in OTHER groups; (2) the state carried
+    between blocks is the nan-LAST value (AlignedArrays.last), so a running sum that legitimately became NaN (inf + -inf)
+    is dropped and later blocks continue from the older state.  Finite data are never matched."""
+    if case.get("func") != "nancumsum" or clause not in ("scan:result", "values"):
+        return False
+    return any(v[1] == 0 and v[0] != 0 for v in case.get("vals", []))
+
+
 MATCHERS = {
+    "nancumsum_infinite_data": nancumsum_infinite_data,
     "dim_without_grouper_dims": dim_without_grouper_dims,
     "uint64_min_numba_chunked": uint64_min_numba_chunked,
     "dataset_var_without_group_dim": dataset_var_without_group_dim,
